@@ -106,6 +106,22 @@ func c03Scenarios() []hpScenario {
 	return out
 }
 
+// c03Core: the scenarios explored with the full deviation bound in the quick tier
+// (two-way, header-only, no disconnect: every first outcome x retry policy x per-try timeout).
+func c03Core(sc *hpScenario) bool {
+	if len(sc.Requests) != 1 || sc.DownDisconnect || sc.NoRoute || sc.NoHosts || sc.AllUnhealthy || len(sc.FailHosts)+len(sc.TimeoutHosts) > 0 {
+		return false
+	}
+	r := sc.Requests[0]
+	if r.Oneway || r.Body {
+		return false
+	}
+	if len(r.Script) > 1 && r.Script[1] == upSilent {
+		return false
+	}
+	return true
+}
+
 func c03Name(sc *hpScenario) string {
 	var parts []string
 	for _, r := range sc.Requests {
@@ -217,6 +233,9 @@ func c03Check(sc *hpScenario, obs *hpObs, r *vrt.Result, report func(kind, detai
 				f := strings.Fields(full)
 				sig = f[0] + " " + f[1] + fmt.Sprintf(" retried=%v", obs.Attempts[rq.Token] > 1)
 			}
+			sig += fmt.Sprintf(" deviations=%d", r.Cost)
+			if false {
+			}
 			report("request never completed (no response, client did not disconnect): "+w+"; "+sig,
 				fmt.Sprintf("scenario %s, request %s; state: %s; blocked=%v log=%v", sc.Name, rq.Token, full, r.Blocked, obs.Log))
 			continue
@@ -291,6 +310,9 @@ func c03Check(sc *hpScenario, obs *hpObs, r *vrt.Result, report func(kind, detai
 func c03RunScenario(p *vreport.Part, sc hpScenario, replay bool, deadline time.Time) bool {
 	obs := &hpObs{}
 	opts := vrt.Options{Bound: sc.Bound, Delay: true, MaxSteps: 200000, Deadline: deadline, Trace: os.Getenv("VERIF_DEBUG") == "2" || os.Getenv("VERIF_TRACE_VIOL") != ""}
+	// coverage must not depend on machine speed: the search is cut by an execution cap
+	// (deterministic DFS order), the deadline is only a safety net
+	opts.MaxExecs = vreport.Pick(60000, 600000)
 	if os.Getenv("VERIF_DEBUG") != "" {
 		opts.MaxExecs = 1
 	}
@@ -342,7 +364,7 @@ func c03RunScenario(p *vreport.Part, sc hpScenario, replay bool, deadline time.T
 
 func TestVerifC03Terminal(t *testing.T) {
 	const part = "terminal-outcome-interleavings"
-	budget := time.Duration(vreport.Pick(120, 1500)) * time.Second
+	budget := time.Duration(vreport.Pick(600, 3000)) * time.Second // safety net per scenario, not a coverage bound
 	p := vreport.Begin("C03", part, budget+time.Minute)
 	var rc hpScenario
 	if vreport.Replaying() {
@@ -357,7 +379,6 @@ func TestVerifC03Terminal(t *testing.T) {
 	complete := true
 	n := 0
 	bound := vreport.Pick(2, 3)
-	start := time.Now()
 	var mine []hpScenario
 	for i, sc := range scs {
 		if only := os.Getenv("VERIF_C03_ONLY"); only != "" {
@@ -372,24 +393,23 @@ func TestVerifC03Terminal(t *testing.T) {
 	}
 	for i, sc := range mine {
 		sc.Bound = bound
+		if !vreport.Thorough() && !c03Core(&sc) {
+			sc.Bound = bound - 1
+		}
 		if d := hpDeterminism(sc); d != "" {
 			vreport.HarnessError("C03", part, "nondeterministic scenario "+sc.Name+": "+d)
 			complete = false
 			continue
 		}
-		// every scenario gets an equal share of what is left of the budget
-		left := budget - time.Since(start)
-		share := left / time.Duration(len(mine)-i)
-		if share < time.Second {
-			share = time.Second
-		}
+		_ = i
+		share := budget
 		if !c03RunScenario(p, sc, false, time.Now().Add(share)) {
 			complete = false
-			p.Count("scenarios_cut_by_deadline", 1)
+			p.Count("scenarios_cut_by_execution_cap_or_deadline", 1)
 		}
 		n++
 	}
 	p.Note("scenarios", n)
-	p.End(complete, fmt.Sprintf("%d scenarios (this shard), all schedules of worker / upstream readers / timers / downstream reader with <=%d deviations from the default scheduler (delay bounding); timers fire in virtual-deadline order", n, bound),
+	p.End(complete, fmt.Sprintf("%d scenarios (this shard), all schedules of worker / upstream readers / timers / downstream reader with <=%d deviations from the default scheduler (delay bounding; quick tier: %d for the non-core scenarios); timers fire in virtual-deadline order; per-scenario execution cap %d", n, bound, bound-1, vreport.Pick(60000, 600000)),
 		"scenario grid {two-way,one-way}x{body}x{retry policy}x{per-try timeout}x{per-attempt upstream script}x{downstream disconnect} + connect failures, no route/no host/unhealthy, overflow, split reply; one evaluation = one complete execution of the real proxy stack under one schedule; distinct = distinct (scenario, observed downstream frames, upstream attempts, peer actions)")
 }
